@@ -360,6 +360,10 @@ pub fn start_job(command: Arc<Command>) -> (Job, JoinHandle<()>) {
 						}
 					}
 				}
+					else => {
+						trace!("control queue closed and command not running, stopping gracefully");
+						break 'main;
+					}
 				}
 			}
 
